@@ -17,8 +17,8 @@ ASSUMPTIONS = ["the regular-expression stage (Ifdef.scan) is a hand recogniser c
 def run(ctx):
     thorough, seed = ctx["thorough"], ctx["seed"]
     total = {"evaluations": 0, "disagreements": [], "violations": [], "streams": {}, "distinct_nontrivial": 0}
-    for name, rr in (("ifdef", ifdefs.check(seed, 40000 if thorough else 4000)),
-                     ("includes", includes.check(seed, 3000 if thorough else 250))):
+    for name, rr in (("ifdef", ifdefs.check(seed, 200000 if thorough else 4000)),
+                     ("includes", includes.check(seed, 12000 if thorough else 250))):
         total["evaluations"] += rr["evaluations"]
         total["distinct_nontrivial"] += rr.get("distinct", 0)
         total["disagreements"] += rr["disagreements"]
